@@ -45,6 +45,10 @@ theorem C12_fn_update_spec (g : VelocityControl) (s : VelocityControlSpec) :
 
 theorem C12_fn_velocity (g : VelocityControl) : g.velocity = (toVC g).velocity := rfl
 
+/-- `get_state` (what `load_from_state` / a persister that stores only the bucket state would keep): the
+    start second and the buckets, nothing of the geometry -/
+theorem C12_fn_get_state (g : VelocityControl) : g.get_state = (toVC g).getState := rfl
+
 /-- the shift loop of `insert` (`for _ in 0..nshift { self.buckets.insert(0, 0) }`) prepends `n` zeros -/
 theorem C12_fn_shift_loop (n : Nat) : ∀ s : VelocityControl,
     Rs.iter (fun s : VelocityControl => { s with buckets := 0 :: s.buckets }) n s
